@@ -85,6 +85,9 @@ def run(ck):
         if s is None:
             fails.append(('grammar', desc, f'stil.parse rejects the file: {obs["errors"].get("parse")}', None))
             continue
+        for ekey in ('repeat', 'patterns'):
+            if ekey in obs['errors']:
+                fails.append(('stilfile-' + ekey, desc, obs['errors'][ekey], None))
         if not edge:
             what = sc.grammar_oracle(s, d, calls)
             if what:
@@ -219,6 +222,8 @@ def replay(rp):
     c = cg.from_description(inp['circuit'])
     s, obs = sc.observe(inp['stil'], c)
     if s is None:
+        return True
+    if 'repeat' in obs['errors'] or 'patterns' in obs['errors']:
         return True
     exp = rp.get('expected')
     if not exp:
